@@ -44,6 +44,8 @@ func main() {
 		famC13(g, o, *n, *thorough)
 	case "c07":
 		famC07(g, o, *n, *thorough)
+	case "c09":
+		famC09(g, o, *n, *thorough)
 	case "c04":
 		famC04(g, o, *n, *thorough)
 	case "c03":
